@@ -15,6 +15,19 @@ fn params(p: &Params) -> String {
         .iter()
         .map(|g| g.iter().map(|v| v.to_string()).collect::<Vec<_>>().join(","))
         .collect();
+    // the other views of the same parameters agree with `iter()`
+    let values: usize = p.iter().map(|g| g.len()).sum();
+    assert_eq!(p.len(), values, "Params::len");
+    assert_eq!(p.is_empty(), values == 0, "Params::is_empty");
+    assert_eq!(p.iter().size_hint().1, Some(values), "ParamsIter::size_hint");
+    let mut by_ref: Vec<String> = Vec::new();
+    for g in p {
+        by_ref.push(g.iter().map(|v| v.to_string()).collect::<Vec<_>>().join(","));
+    }
+    assert_eq!(by_ref, groups, "IntoIterator for &Params");
+    let dbg: Vec<String> = p.iter().map(|g| g.iter().map(|v| v.to_string()).collect::<Vec<_>>().join(":")).collect();
+    assert_eq!(format!("{p:?}"), format!("[{}]", dbg.join(";")), "Debug for Params");
+    assert!(p.clone() == *p, "Clone / PartialEq for Params");
     format!("{}:{}", groups.len(), groups.join(";"))
 }
 
@@ -71,7 +84,15 @@ pub fn events(f: &[&str]) -> String {
     let bytes = unhex(f[0]);
     let mut parser = Parser::<anstyle_parse::DefaultCharAccumulator>::new();
     let mut rec = Rec::default();
-    for b in bytes {
+    // a parser is a value: at input-dependent positions the run goes on with a clone of it
+    let h = bytes.iter().fold(5usize, |a, b| a.wrapping_mul(33).wrapping_add(*b as usize));
+    let every = [0usize, 1, 3, 7][h % 4];
+    for (i, b) in bytes.into_iter().enumerate() {
+        if every != 0 && (i + h / 4) % every == 0 {
+            let copy = parser.clone();
+            assert!(copy == parser, "Clone / PartialEq for Parser");
+            parser = copy;
+        }
         parser.advance(&mut rec, b);
     }
     rec.out
@@ -115,6 +136,17 @@ const STATES: [State; 16] = [
 /// `tbl <state discriminant>`: the 256 results of the public `state_change`
 pub fn table_row(f: &[&str]) -> String {
     let d: u8 = f[0].parse().expect("state");
+    // the checked conversions from the packed representation
+    for raw in 0..=255u8 {
+        match State::try_from(raw) {
+            Ok(s) => assert!(raw < 16 && s as u8 == raw, "State::try_from({raw})"),
+            Err(e) => assert!(raw >= 16 && e == raw, "State::try_from({raw})"),
+        }
+        match anstyle_parse::state::Action::try_from(raw) {
+            Ok(a) => assert!(raw < 16 && a as u8 == raw, "Action::try_from({raw})"),
+            Err(e) => assert!(raw >= 16 && e == raw, "Action::try_from({raw})"),
+        }
+    }
     let st = *STATES.iter().find(|s| **s as u8 == d).expect("state discriminant");
     let mut out = String::new();
     for b in 0..=255u8 {
